@@ -58,6 +58,8 @@ def main():
         if "testing/synctest" in text or "go1.25" in text:
             # the demonstration needs the newer toolchain
             run_demo = "GOTOOLCHAIN=local GOSUMDB=off go1.26.8 test -vet=off -count=1 -timeout 300s -run '%s' %s" % (pattern, relpkg)
+        if re.search(r"go test[^\n]*-race", text) or "race detector" in json.dumps(meta).lower() and "-race" in text:
+            run_demo = run_demo.replace(" test -vet=off", " test -race -vet=off")
         # 1. demo passes on the unchanged tree
         shutil.copy(demo, demofile)
         rc, out = sh(run_demo, cwd=moddir)
